@@ -60,6 +60,10 @@ func normSchema(s any, depth int, v3 bool) any {
 			out[k] = v
 		}
 	}
+	// OpenAPI 2 "type: file" (a response that is a file) is OpenAPI 3 "type: string, format: binary"
+	if !v3 && out["type"] == "file" {
+		out["type"], out["format"] = "string", "binary"
+	}
 	// x-nullable means something to OpenAPI 2 tooling only, nullable to OpenAPI 3 tooling only
 	if v, ok := m["x-nullable"].(bool); ok && v && !v3 {
 		out["nullable"] = true
@@ -824,6 +828,25 @@ func c17Cases() []c17case {
 		}},
 		{"consumes-two-types", func(d gen.S) {
 			dig(d, "paths")["/c2"] = gen.S{"put": gen.S{"operationId": "c2", "consumes": gen.Arr("application/xml", "application/json"), "parameters": gen.Arr(gen.S{"name": "body", "in": "body", "schema": gen.S{"$ref": "#/definitions/Pet"}}), "responses": okResp()}}
+		}},
+		{"file-download-response", func(d gen.S) {
+			dig(d, "paths")["/dl"] = gen.S{"get": gen.S{"operationId": "dl", "produces": gen.Arr("application/octet-stream"), "responses": gen.S{"200": gen.S{"description": "the file", "schema": gen.S{"type": "file"}}}}}
+		}},
+		{"shared-file-download-response", func(d gen.S) {
+			d["responses"] = gen.S{"File": gen.S{"description": "a file", "schema": gen.S{"type": "file"}}}
+			dig(d, "paths")["/dl"] = gen.S{"get": gen.S{"operationId": "dl", "produces": gen.Arr("application/pdf"), "responses": gen.S{"200": gen.S{"$ref": "#/responses/File"}}}}
+		}},
+		{"binary-format-property-in-definition", func(d gen.S) {
+			dig(d, "definitions")["Blob"] = gen.S{"type": "object", "required": gen.Arr("data"), "properties": gen.S{"data": gen.S{"type": "string", "format": "binary"}, "n": gen.S{"type": "string"}}}
+			dig(d, "paths")["/bl"] = gen.S{"get": gen.S{"operationId": "bl", "responses": gen.S{"200": gen.S{"description": "ok", "schema": gen.S{"$ref": "#/definitions/Blob"}}}}}
+		}},
+		{"binary-format-definition", func(d gen.S) {
+			dig(d, "definitions")["Raw"] = gen.S{"type": "string", "format": "binary"}
+			dig(d, "definitions")["Holder"] = gen.S{"type": "object", "properties": gen.S{"raw": gen.S{"$ref": "#/definitions/Raw"}, "list": gen.S{"type": "array", "items": gen.S{"type": "string", "format": "binary"}}}}
+			dig(d, "paths")["/rw"] = gen.S{"post": gen.S{"operationId": "rw", "parameters": gen.Arr(gen.S{"name": "body", "in": "body", "schema": gen.S{"$ref": "#/definitions/Holder"}}), "responses": okResp()}}
+		}},
+		{"binary-format-form-parameter", func(d gen.S) {
+			dig(d, "paths")["/bf"] = gen.S{"post": gen.S{"operationId": "bf", "consumes": gen.Arr("application/x-www-form-urlencoded"), "parameters": gen.Arr(gen.S{"name": "a", "in": "formData", "type": "string", "format": "binary"}), "responses": okResp()}}
 		}},
 		{"body-optional", func(d gen.S) {
 			dig(d, "paths")["/bo"] = gen.S{"post": gen.S{"operationId": "bo", "parameters": gen.Arr(gen.S{"name": "body", "in": "body", "schema": gen.S{"$ref": "#/definitions/Pet"}}), "responses": okResp()}}
